@@ -31,7 +31,11 @@ ASSUMPTIONS = [
     "filterSlice modelled as the pure function with Go's resulting order of kept elements (since the repair of F-C05-1 the "
     "Go code filters a clone, so nothing is written to the client's slices); runs on the raw LocalClient and on the recording "
     "client are compared on every case",
-    "theorems assume a client that answers about the package it was asked about (client_wf); checked on every recorded table",
+    "the graph theorems assume a client that answers about the package it was asked about and hands out requirement keys "
+    "of type Requirement (client_wf); checked on every recorded table. The totality theorem (C08_resolve_total) assumes "
+    "nothing about the client; it relies on the oracles answering a value or an error (marker evaluation and semver calls "
+    "return: C16/C04) and is exercised by a stream of ill-behaved table clients on which Go must not panic and must agree "
+    "with the model",
     "sort.Slice in matchingVersionsWithPrereleases modelled as Go's insertion sort (lists of at most 12 versions)",
 ]
 
@@ -504,6 +508,19 @@ def same_obs_list(x, y):
         return x == y
 
 
+def same_obs_list_nocanon(x, y):
+    """as same_obs_list, without the success of Graph.Canon: an ill-behaved client can make two nodes equal,
+    on which Canon (property C13, not modelled here) reports an error"""
+    def strip(o):
+        o = canon_obs(o)
+        return o[:4] if isinstance(o, list) and o and o[0] == b"ok" else o
+    try:
+        a, b = parse_sx(x), parse_sx(y)
+        return len(a) == len(b) and all(strip(p) == strip(q) for p, q in zip(a, b))
+    except Exception:
+        return x == y
+
+
 def run_batch(ctx, unis, label):
     """unis: list of (names, vers, uni, roots). One case per universe: record on Go, correspondence on the
     recorded tables, direct oracle on the graphs."""
@@ -573,6 +590,75 @@ def run_batch(ctx, unis, label):
                 ctx.nontriv((names, repr(uni), r))
             if len(ctx.samples) < 3 and nn >= 4 and nb > 0:
                 ctx.sample({"kind": "pypi_record", "root": [x.decode() for x in r], "backtracks": nb, "graph": sx(rec)[:600]})
+    return cases
+
+
+ZERO_VK = [b"", 0, b""]
+
+
+def mutate_table(rng, table):
+    """Turn the recorded answers of a LocalClient into those of an ill-behaved client: errors, duplicates, other
+    orders, versions of other packages, the zero key, keys of the wrong type.  (Versions answers only lose, repeat
+    or reorder elements and requirements keep their package, so that the tabulated semver oracle still covers
+    every pair the resolver can ask about.)"""
+    vs, rs, ms = [list(t) for t in table]
+    all_versions = [v for _, a in ms if a[0] == 1 for v in a[1]] or [ZERO_VK]
+    for tab, kind in ((vs, "V"), (rs, "R"), (ms, "M")):
+        for i, (key, ans) in enumerate(tab):
+            if ans[0] != 1 or rng.random() > 0.35:
+                continue
+            items = list(ans[1])
+            r = rng.random()
+            if r < 0.12:
+                tab[i] = [key, [0]]
+                continue
+            if r < 0.30 and items:
+                items.insert(rng.randrange(len(items) + 1), rng.choice(items))        # duplicate
+            elif r < 0.45:
+                rng.shuffle(items)
+            elif r < 0.55 and items:
+                items.pop(rng.randrange(len(items)))
+            elif kind == "M":
+                q = rng.random()
+                if q < 0.35:
+                    items.insert(rng.randrange(len(items) + 1), rng.choice(all_versions))   # maybe another package
+                elif q < 0.55:
+                    items.insert(rng.randrange(len(items) + 1), list(ZERO_VK))
+                elif q < 0.8 and items:
+                    j = rng.randrange(len(items))
+                    items[j] = [items[j][0], rng.choice([0, 2, 3]), items[j][2]]            # not Concrete
+                else:
+                    items.append([key[0], 1, b"9.9.9"])                                     # unknown to Requirements
+            elif kind == "R" and items:
+                j = rng.randrange(len(items))
+                it = list(items[j])
+                it[1] = rng.choice([0, 1, 3])                                               # key not of type Requirement
+                items[j] = it
+            tab[i] = [key, [1, items]]
+    return [vs, rs, ms]
+
+
+def adversarial(ctx, cases, n):
+    """C04 for the PyPI resolver and the unrestricted half of the theorems: the real resolver on a client that
+    answers from a mutated table must not panic and must agree with the model, which is proved to return a value
+    or an error for every client."""
+    rng = __import__("random").Random(ctx.seed * 7919 + 17)
+    picked = [cases[i] for i in sorted(rng.sample(range(len(cases)), min(n, len(cases))))]
+    out = []
+    for c in picked:
+        orc, per = parse_sx(c)
+        out.append(sx([orc, [[r, mutate_table(rng, t)] for r, t in per]]))
+    impl, model = ctx.correspond("pypi", out, label="pypi:adversarial-client", compare=same_obs_list_nocanon)
+    for case, il in zip(out, impl):
+        obs = parse_sx(il)
+        ctx.evaluations += len(obs) - 1
+        for o in obs:
+            k = o[0].decode() if o and isinstance(o[0], bytes) else "?"
+            ctx.count("adversarial:" + k)
+            if k in ("panic", "timeout"):
+                ctx.violation("the resolver %s on an ill-behaved client (C04: resolution returns a value or an error)"
+                              % ("panics" if k == "panic" else "does not terminate"),
+                              {"kind": "pypi", "arg": case}, observed=il[:2000])
 
 
 def known_witnesses(ctx):
@@ -598,13 +684,17 @@ def run(ctx):
     known_witnesses(ctx)
     n_uni = ctx.scale(400, 20000)
     batch = []
+    first_cases = None
     for u in range(n_uni):
         names, vers, uni = gen_universe(rng)
         batch.append((names, vers, uni, [(n, v) for n in names for v in vers[n]]))
         if len(batch) >= 400 or u == n_uni - 1:
-            run_batch(ctx, batch, "pypi")
+            cases = run_batch(ctx, batch, "pypi")
+            if first_cases is None:
+                first_cases = cases
             batch = []
     ctx.count("universes", n_uni)
+    adversarial(ctx, first_cases, ctx.scale(120, 400))
     g = ctx.dist.get("graphs", 0)
     if g == 0 or ctx.dist.get("graphs_with_rejected_or_backtracked_candidates", 0) < g * 0.05:
         ctx.notes.append("generator degenerate: fewer than 5% of graphs involve rejected candidates")
